@@ -30,6 +30,21 @@ CHECKS = {
    "Every program of P1 (every assembly instruction family in every control-flow frame x stack-input regime), the trace-shape family (main-, range-, chiplet-dominated lengths around 2^k, deep outputs) and in the thorough tier all ordered atom pairs, for expected-cycles hints 64/128/1024/8192: every main and auxiliary transition constraint on every non-exempt row and every boundary assertion of ProcessorAir evaluated by the harness (not winterfell's debug validator), trace-length rule checked, main trace identical across hints.",
    "Challenges: K stated vectors from VERIF_SEED (polynomial-identity argument), not the 2^128 space; programs outside the families not covered.",
    "DESIGN.md §5 C03"),
+ "C08": ("exploration",
+   "bounded-exhaustive enumeration of operation-sequence patterns and MAST shapes against a reference hash/batching model re-implemented from the design docs",
+   "All 3^n push/non-push/NOOP patterns for n <= 10 (quick) / 13 (thorough) and all patterns of length <= 6/8 appended to 54..73 plain operations (every alignment of the 9-op group and 8-group batch boundaries): each real Span is checked against the documented batching rules (group/batch limits, immediates in following groups of the same batch, no immediate-carrying op last, groups decode back to the sequence up to NOOPs, zero-padded power-of-two group counts) and hash = reference RPO sponge; 29 060 control-block trees against the reference domain-separated merge; invariance under comments/blank lines/procedure names/debug mode/decorators at every instruction boundary and sensitivity to every instruction/immediate edit over a 207-program corpus; the hash recorded by executions equals the program hash.",
+   "RPO permutation and opcode numbering trusted; the exact packing is fixed by the implementation within the documented rules (the rules are what is demanded); error codes of assertions are not treated as hashed immediates.",
+   "DESIGN.md §5 C08"),
+ "C09": ("fault_enumeration",
+   "exhaustive enumeration of (operand, dishonest hint) pairs and single-node Merkle-store corruptions through a scripted Host wrapper on the real VM",
+   "For u32clz/ctz/clo/cto, ilog2, ext2inv/ext2div and std::math::u64 div/mod/divmod: structured operand sets x every hint of the plausible range plus boundary values (one dishonest hint, then all dishonest); for mtree_get/set/verify: every tree of depth 1-3 over two leaf words x every single on-path node replaced / removed / siblings swapped / answer replaced; a run that completes must return the mathematically correct result (computed natively by the harness); with the honest host every valid operand succeeds; adv_push.n / adv_loadw / adv_pipe deliver a scripted advice stack in the documented order.",
+   "Host-contract shape violations (a Merkle path of the wrong length) are explored and reported as notes only; advice-map content is not varied (no instruction in scope reads it).",
+   "DESIGN.md §5 C09"),
+ "C18": ("model_checking",
+   "explicit-state BFS over SMT and MMR operation histories (real masm procedures on the real VM vs. the native miden-crypto structures) + bounded-exhaustive enumeration for truncate_stack / memcopy / pipe_*",
+   "SMT machine (set/get/peek over keys sharing and not sharing a leaf, values {empty, v1, v2}) and MMR machine (add/get/pack/unpack) explored breadth-first to depth 3/5 (quick) and 5/8 (thorough), every transition run on the VM with advice derived from the native pre-state and again as a whole-history run; truncate_stack for every depth 16..48 in four calling situations; memcopy for all (n, read_ptr, write_ptr) in an 8-word window (overlap: frame condition only, the result is unspecified); pipe_* for every word count with correct and wrong commitments; mmr arithmetic helpers on structured inputs.",
+   "miden-crypto's Smt/Mmr are the reference; cases the masm documentation marks as unimplemented (leaves with several pairs) are executed, counted and not compared.",
+   "DESIGN.md §5 C18"),
 }
 NA_REASON = "check not built yet in this round (planned, see DESIGN.md §11); no claim is made"
 m = {
